@@ -44,6 +44,10 @@ pub struct Sc {
     /// dropped) while this target (index modulo the number of targets) is half transferred
     #[serde(default)]
     pub abandon: Option<usize>,
+    /// afterwards the repository publishes an update in which one cloned target has other bytes of
+    /// the same length (all versions + 1) and the client clones again into the same two directories
+    #[serde(default)]
+    pub recache: bool,
 }
 
 pub struct C19;
@@ -121,7 +125,7 @@ impl Check for C19 {
         "C19"
     }
     fn rule(&self) -> String {
-        "foreign-publisher repositories with 1..3 root versions (online keys optionally rotated per version), 0..2 delegated roles with odd names, 0..6 targets with odd names (sub-directories, spaces, non-ASCII, names needing resolution, names that look like metadata files) in any role, both consistent-snapshot settings; cache() with all targets or a subset (optionally naming an unlisted target), with/without root chain, optionally one source target corrupted; in a quarter of the runs a first cache() into other directories is abandoned (future dropped) while one target is half transferred; then reload from the two directories with the real FilesystemTransport; non-trivial = the cache held at least one target or a root chain, or a corrupted source was fetched; distinct = distinct canonical trace".into()
+        "foreign-publisher repositories with 1..3 root versions (online keys optionally rotated per version), 0..2 delegated roles with odd names, 0..6 targets with odd names (sub-directories, spaces, non-ASCII, names needing resolution, names that look like metadata files) in any role, both consistent-snapshot settings; cache() with all targets or a subset (optionally naming an unlisted target), with/without root chain, optionally one source target corrupted; in a quarter of the runs a first cache() into other directories is abandoned (future dropped) while one target is half transferred; then reload from the two directories with the real FilesystemTransport; in a third of the runs the repository then publishes an update (one cloned target with other bytes of the same length) and is cloned again into the same directories; non-trivial = the cache held at least one target or a root chain, or a corrupted source was fetched; distinct = distinct canonical trace".into()
     }
     fn assumptions(&self) -> Vec<String> {
         vec![
@@ -139,7 +143,7 @@ impl Check for C19 {
         }
     }
     fn required_faults(&self, _t: Tier) -> Vec<&'static str> {
-        vec!["corrupted_source_target", "unlisted_target_requested", "odd_role_name", "odd_target_name", "clone_abandoned_mid_target"]
+        vec!["corrupted_source_target", "unlisted_target_requested", "odd_role_name", "odd_target_name", "clone_abandoned_mid_target", "clone_repeated_into_the_same_directories"]
     }
     fn required_probes(&self, _t: Tier) -> Vec<&'static str> {
         vec!["clone_reloaded_with_identical_versions", "targets_read_back_identical", "root_chain_complete", "corrupted_target_not_stored"]
@@ -190,12 +194,16 @@ impl Check for C19 {
             root_chain: r.chance(1, 2),
             corrupt,
             abandon: if r.chance(1, 4) { Some(r.usize_below(8)) } else { None },
+            recache: r.chance(1, 3),
         }
     }
     fn shrink(&self, sc: &Sc) -> Vec<Sc> {
         let mut v = Vec::new();
         if sc.corrupt.is_some() {
             v.push(Sc { corrupt: None, ..sc.clone() });
+        }
+        if sc.recache {
+            v.push(Sc { recache: false, ..sc.clone() });
         }
         if sc.abandon.is_some() {
             v.push(Sc { abandon: None, ..sc.clone() });
@@ -545,6 +553,90 @@ impl Check for C19 {
         }
         if all_ok {
             o.probe("targets_read_back_identical");
+        }
+        // ---- the repository moves on; the same directories are used for the next clone
+        let plain = |n: &str| !n.chars().any(|c| c == ' ' || !c.is_ascii() || "\"<>`{}#?".contains(c));
+        let changed = wanted.iter().find(|n| plain(n) && !contents[n.as_str()].is_empty()).cloned();
+        if let (true, Some(cn), None) = (sc.recache, changed, &corrupt_name) {
+            let mut spec2 = RepoSpec::basic(w, sc.consistent);
+            spec2.root = root_spec(sc, sc.roots);
+            spec2.ts_version += 1;
+            spec2.snap_version += 1;
+            spec2.targets_version += 1;
+            for (i, n) in sc.role_names.iter().enumerate() {
+                spec2.delegated.push(RoleNode::simple(w, 40 + i as u64, n, &["*"]));
+                spec2.delegated[i].paths = Paths::HashPrefixes(vec![String::new()]);
+                spec2.delegated[i].version += 1;
+            }
+            let mut contents2: BTreeMap<String, Vec<u8>> = BTreeMap::new();
+            for (i, t) in sc.targets.iter().enumerate() {
+                let mut c = content(w, i, t.size);
+                if t.name == cn {
+                    for b in c.iter_mut() {
+                        *b ^= 0x5a;
+                    }
+                }
+                match t.role {
+                    None => spec2.add_target(&t.name, &c),
+                    Some(ri) => {
+                        spec2.delegated[ri].targets.push(TargetEntry::of(&t.name, &c));
+                        spec2.contents.push((t.name.clone(), c.clone()));
+                    }
+                }
+                contents2.insert(t.name.clone(), c);
+            }
+            let built2 = world::build(&spec2);
+            let mut meta2 = built2.files.meta.clone();
+            meta2.retain(|k, _| !k.ends_with(".root.json"));
+            for (v, b) in root_files.iter().enumerate() {
+                meta2.insert(format!("{}.root.json", v + 1), b.clone());
+            }
+            let mut tfiles2: std::collections::HashMap<String, Vec<u8>> = std::collections::HashMap::new();
+            for (n, c) in &contents2 {
+                tfiles2.insert(world::target_file_name(sc.consistent, &resolve(n), c), c.clone());
+            }
+            let transport2 = SimTransport::new(move |r| match r.base {
+                Base::Metadata => meta2.get(&r.rel).map_or(Resp::not_found(), |b| Resp::whole(b)),
+                Base::Targets => match tfiles2.get(&r.rel).or_else(|| tfiles2.get(&crate::transport::pct_decode(&r.rel))) {
+                    Some(b) => Resp::whole(b),
+                    None => Resp::not_found(),
+                },
+                Base::Unknown => Resp::not_found(),
+            });
+            let shipped2 = shipped.clone();
+            let repo2 = match block_on(async { world::load(&shipped2, transport2, None, world::LoadOpts::default()).await }) {
+                Ok(r) => r,
+                Err(e) => {
+                    o.harness(format!("the updated source repository failed to load: {}", variant(&e)));
+                    return o;
+                }
+            };
+            o.fault("clone_repeated_into_the_same_directories");
+            let subset2: Option<Vec<String>> = sc.subset.as_ref().map(|_| wanted.clone());
+            let c2 = block_on(async { repo2.cache(&mdir, &tdir, subset2.as_deref(), sc.root_chain).await });
+            drain_blocking();
+            o.ev(format!("second clone after an update of {cn:?} -> {:?}", c2.as_ref().map_err(variant)));
+            match c2 {
+                Err(e) => o.violate("recache-of-updated-repository-failed", format!("cache() into the directories of the previous clone failed with {}", variant(&e))),
+                Ok(()) => {
+                    let murl = Url::from_directory_path(&mdir).unwrap();
+                    let turl = Url::from_directory_path(&tdir).unwrap();
+                    match block_on(async { RepositoryLoader::new(&reload_root, murl, turl).transport(FilesystemTransport).load().await }) {
+                        Err(e) => o.violate("recached-clone-does-not-load", variant(&e)),
+                        Ok(re2) => {
+                            if versions(&repo2) != versions(&re2) {
+                                o.violate("recached-clone-role-versions-differ", format!("updated original {:?}, clone {:?}", versions(&repo2), versions(&re2)));
+                            }
+                            let got = block_on(read_all(&re2, &cn));
+                            if got.as_ref().ok().and_then(|x| x.as_ref()) == Some(&contents2[&cn]) {
+                                o.probe("recached_clone_serves_the_updated_target");
+                            } else {
+                                o.violate("recached-target-differs", format!("after the update and a second cache() into the same directories, {cn:?} reads back as {:?}", got.map(|x| x.map(|b| b.len()))));
+                            }
+                        }
+                    }
+                }
+            }
         }
         o.nontrivial = !wanted.is_empty() || sc.root_chain;
         o
